@@ -8,7 +8,8 @@
 //! `server::Connection::accept`), `clo` (the driver calls `client::Connection::poll_close`) or
 //! `idl` (the driver polls the future of `client::Connection::wait_idle`), `<err>` = `I<code>.<tag>` (`InternalConnectionError`),
 //! `Qa<code>` (`ApplicationClose`), `Qt` (`Timeout`), `Qi.<tag>` (`InternalError`), `Qu.<tag>`
-//! (`Undefined`), and `<label>` = `D.poll | D.pce | D.det:<err> | D.park | S<k>`.
+//! (`Undefined`), and `<label>` = `D.poll | D.pce | D.det:<err> | D.park | D.shut | S<k>` (`D.shut`: the driver calls
+//! the real `shutdown()` — mode `pce`: its first statement `check_connection_error` — while it is not inside a poll).
 //!
 //! Every task runs on its own OS thread against one real `h3::server::Connection` (over the
 //! in-memory transport of `sim.rs`) and its real `Arc<SharedState>`; the threads are parked at
@@ -159,6 +160,9 @@ enum DOp {
     Pce,
     Det(Err),
     Park,
+    /// a `shutdown()` call made while the driver is not inside a poll (mode `pce`: its first
+    /// statement, `ConnectionInner::check_connection_error`, called directly)
+    Shut,
 }
 
 #[derive(Clone, Debug)]
@@ -469,6 +473,10 @@ fn driver_thread_pce(ctl: Arc<Ctl>, flag: Arc<Flag>, tx: mpsc::Sender<Arc<Shared
                 "poll".to_string()
             }
             Cmd::Drv(DOp::Park) => "park".to_string(),
+            Cmd::Drv(DOp::Shut) => match conn.inner.check_connection_error() {
+                Ok(()) => "ok".to_string(),
+                Err(e) => format!("E:{}", show_cerr(&e)),
+            },
             Cmd::Drv(DOp::Pce) => {
                 let mut cx = Context::from_waker(&waker);
                 match conn.inner.poll_connection_error(&mut cx) {
@@ -568,9 +576,30 @@ fn driver_thread_fut(mode: Mode, ctl: Arc<Ctl>, flag: Arc<Flag>, tx: mpsc::Sende
     ME.with(|m| *m.borrow_mut() = Some(Me { ctl: ctl.clone(), id: 0, acc: true, rounds: 0, net: Some(net.clone()) }));
     install_gate(&ctl, &net, client);
     'outer: loop {
-        // idle: only `D.poll` is sent here
+        // idle: only `D.poll` and `D.shut` are sent here
         match ctl.wait_grant(0) {
             Cmd::Drv(DOp::Poll) => {}
+            Cmd::Drv(DOp::Shut) => {
+                // the real `shutdown()` of the role's driver, polled once (it can wait only for write
+                // credit on the control stream, which this transport never withholds)
+                let r = match &mut drv {
+                    Drv::Server(conn) => {
+                        let mut f: Pin<Box<dyn Future<Output = _> + '_>> = Box::pin(conn.shutdown(0));
+                        crate::sim::poll_once(&mut f)
+                    }
+                    Drv::Client(conn, _) => {
+                        let mut f: Pin<Box<dyn Future<Output = _> + '_>> = Box::pin(conn.shutdown(0));
+                        crate::sim::poll_once(&mut f)
+                    }
+                };
+                let out = match r {
+                    Poll::Pending => "shut-pending".to_string(),
+                    Poll::Ready(Ok(())) => "ok".to_string(),
+                    Poll::Ready(Err(e)) => format!("E:{}", show_cerr(&e)),
+                };
+                ctl.report(out, Some(closes_of(&net)));
+                continue 'outer;
+            }
             _ => break 'outer,
         }
         flag.woken.store(false, Ordering::SeqCst);
@@ -630,6 +659,7 @@ fn parse_label(s: &str) -> Option<Label> {
         "D.poll" => Some(Label::D(DOp::Poll)),
         "D.pce" => Some(Label::D(DOp::Pce)),
         "D.park" => Some(Label::D(DOp::Park)),
+        "D.shut" => Some(Label::D(DOp::Shut)),
         _ => Some(Label::D(DOp::Det(parse_err(s.strip_prefix("D.det:")?)?))),
     }
 }
@@ -712,7 +742,7 @@ fn run_case(mode: Mode, specs: Vec<Vec<Err>>, labels: Vec<Label>) -> String {
             }
             Label::D(op) => {
                 let enabled = match (pc, op) {
-                    (Pc::Idle, DOp::Poll) => true,
+                    (Pc::Idle, DOp::Poll) | (Pc::Idle, DOp::Shut) => true,
                     (Pc::Started, DOp::Pce) | (Pc::Started, DOp::Det(_)) => true,
                     (Pc::Armed, DOp::Pce) | (Pc::Armed, DOp::Det(_)) | (Pc::Armed, DOp::Park) => true,
                     (Pc::Mid, DOp::Pce) => true,
@@ -739,8 +769,15 @@ fn run_case(mode: Mode, specs: Vec<Vec<Err>>, labels: Vec<Label>) -> String {
                             pc = Pc::Idle;
                             parked = true;
                         }
+                        // `shutdown()` on a connection without an error
+                        "ok" if *op == DOp::Shut => {}
                         x if x.starts_with("E:") => {
                             pc = Pc::Idle;
+                            // a call that reports has met the error: the driver's last call did not
+                            // answer `Pending`
+                            if *op == DOp::Shut {
+                                parked = false;
+                            }
                             drv_last = x.to_string();
                             let e = x[2..].to_string();
                             if !errs.contains(&e) {
@@ -755,6 +792,7 @@ fn run_case(mode: Mode, specs: Vec<Vec<Err>>, labels: Vec<Label>) -> String {
                         let ok = match op {
                             DOp::Poll => r == "poll",
                             DOp::Park => r == "park",
+                            DOp::Shut => r == "ok" || r.starts_with("E:"),
                             DOp::Det(_) => r.starts_with("E:"),
                             DOp::Pce => r == "mid" || r == "pend" || r.starts_with("E:"),
                         };
